@@ -7,8 +7,9 @@
 For one program:   `erg check f.er`   and   `erg compile -o L f.er` for every L in levels.
 `erg check` never reads the optimisation level (cfg.opt_level is read in optimize.rs only, and HIROptimizer::optimize is
 called from compile.rs only: re-established from the source text on every run by opt_level_tie()); when that tie
-breaks, check is run at every level as well.  When `erg check` ends with ordinary errors the front end has rejected
-the program and the optimiser/code generator is not entered: compile is then run at the first level only.
+breaks, check is run at every level as well.  When `erg check` ends with ordinary errors (or crashes) the front end
+has rejected the program and the optimiser/code generator is not entered: compile is then run at the first level only
+(not at all after a hang: it would hang in the same analysis).
 
 Outcome of one command (class Outcome):
     ok        exit status 0
@@ -32,9 +33,9 @@ from concurrent.futures import ThreadPoolExecutor
 ANSI = re.compile(r"\x1b\[[0-9;]*m")
 TIMEOUT = int(os.environ.get("C07_TIMEOUT", "30"))      # seconds = "hangs" (property text): CPU seconds, see Runner._cmd
 INTERNAL_PHRASES = ["bug of the erg compiler", "bug of erg compiler", "this is a bug", "bug of erg"]
-CPU_LIMIT = 3 * TIMEOUT   # CPU seconds after which a command counts as hanging: three times the property's 30 s, because CPU
+CPU_LIMIT = 2 * TIMEOUT   # CPU seconds after which a command counts as hanging: twice the property's 30 s, because CPU
                           # time itself is inflated (page faults, cache thrashing) on a heavily loaded machine
-HANG_SAMPLE_AFTER = 20    # seconds before the stack of a hanging command is sampled
+HANG_SAMPLE_AFTER = 10    # seconds before the stack of a hanging command is sampled
 MAGIC_311 = "3495"      # `--py-magic-num 3495` = what the default detection finds for python3.11; saves three python
                         # subprocesses per compile (a sample is also compiled without it)
 CRASH_KINDS = ("panic", "bug", "signal", "hang", "exit")
@@ -289,8 +290,10 @@ class Runner:
                                   ["check"] + (["-o", str(lv)] if self.check_all_levels else []), path))
         front_rejected = outs[0].kind == "diag"
         for k, lv in enumerate(levels):
-            if front_rejected and k > 0:
-                break
+            if (front_rejected or outs[0].crashed) and k > 0:
+                break       # the front end rejected the program / crashed: every compile command repeats exactly that
+            if outs[0].kind == "hang":
+                break       # `erg compile` starts with the same analysis: it would only hang again
             outs.append(self._cmd("compile -o %d" % lv, ["compile", "-o", str(lv)] + magic, path))
         self.commands += len(outs)
         for o in outs:
@@ -317,7 +320,7 @@ class Runner:
             pass
         return ProgResult(name, src, outs)
 
-    def run_many(self, items, levels=None, default_magic=False):
+    def run_many(self, items, levels=None, default_magic=False, expected_hang=()):
         names = []
         for it in items:
             self.n += 1
@@ -326,7 +329,7 @@ class Runner:
             res = list(ex.map(lambda a: self.run_one(a[0], a[1], levels, default_magic), zip(names, items)))
         # a hang seen while 16 programs ran in parallel is re-established alone before it counts
         for k, r in enumerate(res):
-            if any(o.kind == "hang" for o in r.outcomes):
+            if k not in expected_hang and any(o.kind == "hang" for o in r.outcomes):
                 res[k] = self.run_one(names[k] + "r", items[k], levels, default_magic)
         return res
 
